@@ -3,7 +3,7 @@ from propdefs import rc, fuzz, script, W
 PROP = {
  'title': 'The relay never crashes and releases everything once clients leave',
  'level': 'exploration',
- 'technique': 'tape fuzzing (libFuzzer + rapidcheck, ASan/UBSan) of the real RelayServer + EventLoop stepped from the harness thread over loopback TCP; resource oracle from the '
+ 'technique': 'black-box stateful property-based testing of the real eph-relay-server process (Hypothesis; /proc/<pid>/fd and re-registration as release oracle) + tape fuzzing (libFuzzer + rapidcheck, ASan/UBSan) of the real RelayServer + EventLoop stepped from the harness thread over loopback TCP; resource oracle from the '
               'read-only verif_* counters and /proc/self/fd',
  'design_ref': 'DESIGN.md 5/C26',
  'level_text': 'Per input 1-6 real TCP clients perform arbitrary writes (random binary up to 64 KiB, 4 KiB-70 000-byte lines with and without terminator, LF/CRLF runs, several commands in '
@@ -12,11 +12,16 @@ PROP = {
                'must still be served and all clients leave in a generated order (at once / forward / reverse / half-close first; FIN or RST). Oracle: no sanitizer report, no exception, no '
                'runaway loop inside one event-loop batch, and after the last disconnect verif_session_count() == 0, verif_registration_count() == 0 and /proc/self/fd equals the idle server\'s '
                'descriptor set. Coverage-guided fuzzing over the action tape is the natural level for a crash/leak claim over all byte streams.',
- 'level_note': 'Trusted base: ASan/UBSan, the two read-only counters (hook commit bd56d71) and /proc/self/fd. A runaway loop is recognised by allocation count (> 200 000 allocations or > 64 MiB in '
+ 'level_note': 'Black-box part (C26_hyp.py): sequences of up to 12 client steps (progress towards bridges, malformed and very long lines, leaving by close / reset / half-close at any stage) against one real sanitizer-built relay process per worker; once every client has gone the process must be alive, hold as many open descriptors as before the case, let a fresh client register every id used in the case and bridge a fresh connector to it. '
+               'Trusted base: ASan/UBSan, the two read-only counters (hook commit bd56d71) and /proc/self/fd. A runaway loop is recognised by allocation count (> 200 000 allocations or > 64 MiB in '
                'one batch; legitimate batches stay below 100 / 2 MiB) through a replacement operator new that throws into the loop; a loop that never allocates is left to the 60 s watchdog. '
                'Memory growth from unread backlog (slow consumers) and real multi-threaded timing are outside the claim. The routing behaviour is judged by C25, not here.',
  'assumptions': ['SIGPIPE is ignored in the relay process (as src/relay/main.cpp does)',
                  'the harness process opens no descriptors of its own during a case other than the client sockets it closes again'],
  'confirm_replays': 2,
- 'tiers': {'quick': [rc(5000)],
-           'thorough': [rc(10000, W), fuzz(240, 8, max_len=8 + 6 * 80)]}}
+ 'extra_targets': ['build/bin/eph-relay-server'],
+ 'replay_cmd': ['{ROOT}/harness/C26_hyp.py', '--replay', '{path}'],
+ 'tiers': {'quick': [rc(5000),
+                     script(['{ROOT}/harness/C26_hyp.py', '--cases', '240', '--workers', '4'], name='hyp', label='Hypothesis black-box (real eph-relay-server process, descriptor and registration release)', timeout_s=900)],
+           'thorough': [rc(10000, W), fuzz(240, 8, max_len=8 + 6 * 80),
+                        script(['{ROOT}/harness/C26_hyp.py', '--cases', '4000', '--workers', '8'], name='hyp', label='Hypothesis black-box (real eph-relay-server process, descriptor and registration release)', timeout_s=3600)]}}
